@@ -106,15 +106,73 @@ static void dist_open(void)
 /* S oracle for C07: a thread votes for termination (not because of the termination time) only if every LP it
  * hosts currently satisfies its predicate - on the unchanged code a non-zero termination_t means the predicate
  * held at the LP's last processed event and that event has not been undone since. */
-static unsigned long s_vote_false_pred, n_votes;
+static unsigned long s_vote_false_pred, s_vote_uncommitted, n_votes;
+/* Ledger for the C07 oracle (independent of termination.c): for every LP of this rank, the time stamp and the predicate value
+ * after every processed event that has not been undone, by history index; "pred held on a committed state" = the predicate was
+ * true at LP_INIT, or on an entry already released by fossil collection, or on a not-undone entry with time stamp below g. */
+#define LG_MAX 16384
+static struct { uint64_t tq; unsigned char pred, used; } *lg[MAXLP];
+static unsigned char lg_committed_true[MAXLP], lg_overflow[MAXLP]; /* overflow: an index beyond the ledger was seen, no verdict for that LP */
+static void lg_forward(uint64_t lp_abs, uint64_t idx, double t)
+{
+	uint64_t l = lp_abs - lid_node_first;
+	if(l < MAXLP && idx >= LG_MAX)
+		lg_overflow[l] = 1;
+	if(l >= MAXLP || idx >= LG_MAX)
+		return;
+	if(!lg[l])
+		lg[l] = calloc(LG_MAX, sizeof(**lg));
+	lg[l][idx].tq = tq_of(t);
+	lg[l][idx].pred = gm_can_end(lp_abs, lps[lp_abs].state_pointer);
+	lg[l][idx].used = 1;
+}
+static void lg_init(uint64_t lp_abs)
+{
+	uint64_t l = lp_abs - lid_node_first;
+	if(l < MAXLP && gm_can_end(lp_abs, lps[lp_abs].state_pointer))
+		lg_committed_true[l] = 1;
+}
+static void lg_rollback(uint64_t lp_abs, uint64_t past_i)
+{
+	uint64_t l = lp_abs - lid_node_first;
+	if(l >= MAXLP || !lg[l])
+		return;
+	for(uint64_t i = past_i; i < LG_MAX; ++i)
+		lg[l][i].used = 0;
+}
+static void lg_fossil(uint64_t lp_abs, uint64_t n)
+{
+	uint64_t l = lp_abs - lid_node_first;
+	if(l >= MAXLP || !lg[l] || !n)
+		return;
+	for(uint64_t i = 0; i < n && i < LG_MAX; ++i)
+		if(lg[l][i].used && lg[l][i].pred)
+			lg_committed_true[l] = 1;
+	if(n < LG_MAX)
+		memmove(lg[l], lg[l] + n, (LG_MAX - n) * sizeof(**lg));
+	memset(lg[l] + (n < LG_MAX ? LG_MAX - n : 0), 0, (n < LG_MAX ? n : LG_MAX) * sizeof(**lg));
+}
 static void vote_oracle(uint64_t gvt_bits)
 {
 	n_votes++;
 	if(bits_dbl(gvt_bits) >= global_config.termination_time)
 		return;
-	for(uint64_t i = lid_thread_first; i < lid_thread_end; ++i)
+	uint64_t g = tq_of(bits_dbl(gvt_bits));
+	for(uint64_t i = lid_thread_first; i < lid_thread_end; ++i) {
 		if(!gm_can_end(i, lps[i].state_pointer))
 			s_vote_false_pred++;
+		uint64_t l = i - lid_node_first;
+		if(l >= MAXLP || lg_committed_true[l] || lg_overflow[l])
+			continue;
+		int ok = 0, complete = 1;
+		if(lg[l])
+			for(uint64_t k = 0; k < LG_MAX && !ok; ++k)
+				ok = lg[l][k].used && lg[l][k].pred && lg[l][k].tq < g;
+		if(array_count(lps[i].p.p_msgs) >= LG_MAX)
+			complete = 0; /* history longer than the ledger: no verdict */
+		if(!ok && complete)
+			s_vote_uncommitted++;
+	}
 }
 
 /* ------------------------------------------------------------------ distributed mode
@@ -166,6 +224,7 @@ static void dist_trace(unsigned kind, uint64_t a, uint64_t b, uint64_t c)
 			}
 			if(a - lid_node_first < MAXLP)
 				hbase[a - lid_node_first] += b;
+			lg_fossil(a, b);
 			break;
 		case VK_FINI_ENTRY:
 			if(!(b & 3)) {
@@ -176,6 +235,10 @@ static void dist_trace(unsigned kind, uint64_t a, uint64_t b, uint64_t c)
 			break;
 		case VK_ROLLBACK:
 			n_rollbacks++;
+			lg_rollback(a, b);
+			break;
+		case VK_TERM_INIT:
+			lg_init(a);
 			break;
 		case VK_ROLLBACK_DONE: {
 			uint64_t l = a - lid_node_first;
@@ -189,6 +252,7 @@ static void dist_trace(unsigned kind, uint64_t a, uint64_t b, uint64_t c)
 		}
 		case VK_FORWARD:
 			n_fwd++;
+			lg_forward(b, c, m->dest_t);
 			if(b - lid_node_first < MAXLP)
 				dg_set(b - lid_node_first, hbase[b - lid_node_first] + c + 1, lp_digest(b));
 			break;
@@ -293,6 +357,7 @@ void verif_trace(unsigned kind, uint64_t a, uint64_t b, uint64_t c)
 		case VK_FOSSIL_DONE:
 			n_fossil++;
 			OP("fdone %u %llu %llu", r, (unsigned long long)a, (unsigned long long)b);
+			lg_fossil(a, b);
 			if(a < MAXLP)
 				hbase[a] += b;
 			RE("fdone lp=%llu n=%llu c03=%s", (unsigned long long)a, (unsigned long long)b, mode_rank ? "-" : "ok");
@@ -316,6 +381,7 @@ void verif_trace(unsigned kind, uint64_t a, uint64_t b, uint64_t c)
 			break;
 		case VK_ROLLBACK:
 			n_rollbacks++;
+			lg_rollback(a, b);
 			fflush(f_ops);
 			fflush(f_c);
 			OP("rb %u %llu %llu %llu", r, (unsigned long long)a, (unsigned long long)b, (unsigned long long)c);
@@ -345,6 +411,7 @@ void verif_trace(unsigned kind, uint64_t a, uint64_t b, uint64_t c)
 			break;
 		case VK_FORWARD:
 			n_fwd++;
+			lg_forward(b, c, m->dest_t);
 			OP("fwd %u %llu %llu %llu", r, (unsigned long long)ord_of(m), (unsigned long long)b, (unsigned long long)c);
 			RE("fwd %llu lp=%llu idx=%llu st=%llx", (unsigned long long)ord_of(m), (unsigned long long)b,
 			    (unsigned long long)c, (unsigned long long)lp_digest(b));
@@ -396,6 +463,7 @@ void verif_trace(unsigned kind, uint64_t a, uint64_t b, uint64_t c)
 			RE("vote %u tq=%llu lte=%llu", r, (unsigned long long)tq_of(bits_dbl(a)), (unsigned long long)b);
 			break;
 		case VK_TERM_INIT:
+			lg_init(a);
 			OP("terminit %u %llu", r, (unsigned long long)a);
 			RE("terminit lp=%llu term=%llu lte=%llu", (unsigned long long)a, (unsigned long long)b, (unsigned long long)c);
 			break;
@@ -547,11 +615,11 @@ static void print_stats(const char *outcome)
 	printf("{\"outcome\":\"%s\",\"lines\":%lu,\"dispatch\":%lu,\"frozen_dispatch\":%lu,\"fwd\":%lu,\"rollbacks\":%lu,"
 	       "\"silent\":%lu,\"antis\":%lu,\"gvt\":%lu,\"ckpt\":%lu,\"fossil\":%lu,\"msgs\":%llu,\"steps\":%llu,"
 	       "\"switches\":%llu,\"s_below_gvt\":%lu,\"s_rb_mismatch\":%lu,\"s_double_free\":%lu,\"s_rb_checked\":%lu,"
-	       "\"s_rb_after_fossil\":%lu,\"s_gvt_decrease\":%lu,\"s_gvt_disagree\":%lu,\"allocs\":%lu,\"frees\":%lu,\"votes\":%lu,\"s_vote_false_pred\":%lu,\"antis_remote\":%lu,\"early_antis\":%lu,\"fossil_attempts\":%lu",
+	       "\"s_rb_after_fossil\":%lu,\"s_gvt_decrease\":%lu,\"s_gvt_disagree\":%lu,\"allocs\":%lu,\"frees\":%lu,\"votes\":%lu,\"s_vote_false_pred\":%lu,\"s_vote_uncommitted\":%lu,\"antis_remote\":%lu,\"early_antis\":%lu,\"fossil_attempts\":%lu",
 	    outcome, n_lines, n_dispatch, n_frozen_dispatch, n_fwd, n_rollbacks, n_silent, n_antis, n_gvt, n_ckpt, n_fossil,
 	    (unsigned long long)next_ord, (unsigned long long)vs_steps, (unsigned long long)vs_switches, s_below_gvt,
 	    s_rb_mismatch, s_double_free, s_rb_checked, s_rb_after_fossil, s_gvt_decrease, s_gvt_disagree, n_alloc, n_free,
-	    n_votes, s_vote_false_pred, n_ev[39], n_ev[38], n_fossil_attempts);
+	    n_votes, s_vote_false_pred, s_vote_uncommitted, n_ev[39], n_ev[38], n_fossil_attempts);
 #ifdef VERIF_FAKE_PEER
 	printf(",\"peer_events\":%lu,\"peer_antis\":%lu,\"peer_anti_with_event\":%lu,\"peer_responses\":%lu,\"peer_got_events\":%lu,"
 	       "\"peer_got_antis\":%lu,\"peer_rounds\":%lu,\"peer_forced_deliveries\":%lu",
